@@ -17,7 +17,7 @@ BRR_SELF = 0x5000 | (0x7F << 4)      # brr -1, condition true: the idle loop
 INC_A0 = 0x6700 | (13 << 4)
 RETI = 0x45C0
 NOP = 0
-LOOP_AT, VEC0 = 0x0100, 0x0006
+LOOP_AT, VEC0, VECV = 0x0100, 0x0006, 0x0200
 
 
 def machine():
@@ -34,7 +34,7 @@ def machine():
     # program: idle loop at 0x100, int0 handler at 0x0006: inc a0 ; reti
     reg = st.wregion(ctx['mem'])
     arr = z3.Array('dspmem0', z3.BitVecSort(64), z3.BitVecSort(8))
-    for addr, w in ((LOOP_AT, BRR_SELF), (VEC0, INC_A0), (VEC0 + 1, RETI)):
+    for addr, w in ((LOOP_AT, BRR_SELF), (VEC0, INC_A0), (VEC0 + 1, RETI), (VECV, INC_A0), (VECV + 1, RETI)):
         arr = z3.Store(z3.Store(arr, z3.BitVecVal(2 * addr, 64), z3.BitVecVal(w & 0xFF, 8)), z3.BitVecVal(2 * addr + 1, 64), z3.BitVecVal(w >> 8, 8))
     reg.arr = arr
     vecnames = [n for n in G.mod.funcs if n.startswith('@_ZNKSt6vectorI7MatcherIN6Teakra11InterpreterEE') and n.endswith('ixEm')]
@@ -105,7 +105,15 @@ def configure(G, ex, st, ctx, case):
         ex.store(st, Ptr(impl, t1 + T['start_low'][0]), 2, s1)
         ex.store(st, Ptr(impl, t1 + T['start_high'][0]), 2, 0)
     off, sz, c_, stride = L['ICU']['enabled']
-    ex.store(st, Ptr(impl, G.off['icu'] + off), 8, 1 << 0xA)
+    if case.get('vectored'):
+        # IRQ 0xA delivered as a vectored interrupt to the handler at VECV (no context switch); core line 0 not enabled
+        ex.store(st, Ptr(impl, G.off['icu'] + off), 8, 0)
+        ex.store(st, Ptr(impl, G.off['icu'] + L['ICU']['vectored_enabled'][0]), 8, 1 << 0xA)
+        ex.store(st, Ptr(impl, G.off['icu'] + L['ICU']['vector_low'][0] + 0xA * L['ICU']['vector_low'][3]), 2, VECV)
+        ex.store(st, Ptr(impl, G.off['icu'] + L['ICU']['vector_high'][0] + 0xA * L['ICU']['vector_high'][3]), 2, 0)
+        ex.store(st, Ptr(impl, G.off['icu'] + L['ICU']['vector_context_switch'][0] + 0xA * L['ICU']['vector_context_switch'][3]), L['ICU']['vector_context_switch'][1], 0)
+    else:
+        ex.store(st, Ptr(impl, G.off['icu'] + off), 8, 1 << 0xA)
     # CPU: pc at the idle loop, interrupts enabled on line 0, symbolic data registers
     PT = kit.find_type(G.mod, 'Teakra::Processor::Impl"')
     poff = G.mod.offsets(PT)
@@ -117,7 +125,8 @@ def configure(G, ex, st, ctx, case):
         ex.store(st, Ptr(pr.r, pr.o + poff[1] + off + i * stride), sz, v)
     setr('pc', LOOP_AT)
     setr('ie', case['ie'])
-    setr('im', 1, 0)
+    setr('im', 0 if case.get('vectored') else 1, 0)
+    setr('imv', 1 if case.get('vectored') else 0)
     setr('sp', 0x2000)
     a0 = z3.BitVec('a0', 64)
     A.append(z3.SignExt(24, z3.Extract(39, 0, a0)) == a0)
@@ -185,7 +194,7 @@ def job_case(case, tier, seed):
         ck.inconclusive.append('case %r: %s' % (case, str(x)[:150]))
         return ck.export()
     ck.nstates += 1
-    label = ('t1=%d/%d ' % case['t1'] if case.get('t1') else '') + 'mode %d counter %s start %s ie %d' % (case['mode'], case['counter'] if case['counter'] <= case['nmax'] else '>%d' % case['nmax'], case['start'] if case['start'] <= case['nmax'] else '>%d' % case['nmax'], case['ie'])
+    label = ('vectored ' if case.get('vectored') else '') + ('t1=%d/%d ' % case['t1'] if case.get('t1') else '') + 'mode %d counter %s start %s ie %d' % (case['mode'], case['counter'] if case['counter'] <= case['nmax'] else '>%d' % case['nmax'], case['start'] if case['start'] <= case['nmax'] else '>%d' % case['nmax'], case['ie'])
     comps = [c for c in compositions(n) if len(c) > 1]
     if tier == 'quick':
         comps = [c for c in comps if c in ([1] * n, [1, n - 1], [n - 1, 1], [2] * (n // 2) + ([1] if n % 2 else []))]
@@ -278,19 +287,25 @@ def replayer(case, comp, part=None):
                 # program through the host accessors of the memory interface
                 pw = tw.lib.ti_pwrite if hasattr(tw.lib, 'ti_pwrite') else None
                 mem = None
-                for addr, w in ((LOOP_AT, BRR_SELF), (VEC0, INC_A0), (VEC0 + 1, RETI)):
+                for addr, w in ((LOOP_AT, BRR_SELF), (VEC0, INC_A0), (VEC0 + 1, RETI), (VECV, INC_A0), (VECV + 1, RETI)):
                     tw.fn('ti_pwrite', None, [ctypes.c_void_p, ctypes.c_uint32, ctypes.c_uint16])(t, addr, w)
                 cnt, start = inputs['t0.counter'], inputs['t0.start']
                 wr(t, 0x24, start & 0xFFFF)
                 wr(t, 0x26, start >> 16)
-                wr(t, 0x206, 1 << 0xA)
+                if case.get('vectored'):
+                    wr(t, 0x20C, 1 << 0xA)
+                    wr(t, 0x212 + 4 * 0xA, 0)
+                    wr(t, 0x214 + 4 * 0xA, VECV)
+                else:
+                    wr(t, 0x206, 1 << 0xA)
                 # timer: mode, MU, then load the counter by a restart when it equals start, else poke directly
                 tw.fn('ti_timer_poke', None, [ctypes.c_void_p, ctypes.c_uint16, ctypes.c_uint32])(t, case['mode'], cnt)
                 if case.get('t1'):
                     tw.fn('ti_timer1_poke', None, [ctypes.c_void_p, ctypes.c_uint16, ctypes.c_uint32, ctypes.c_uint16])(t, 1, case['t1'][0], case['t1'][1])
                 native.poke(regs, RL, 'pc', LOOP_AT)
                 native.poke(regs, RL, 'ie', case['ie'])
-                native.poke(regs, RL, 'im', 1, 0)
+                native.poke(regs, RL, 'im', 0 if case.get('vectored') else 1, 0)
+                native.poke(regs, RL, 'imv', 1 if case.get('vectored') else 0)
                 native.poke(regs, RL, 'sp', 0x2000)
                 native.poke(regs, RL, 'a', inputs['a0'] & (2**64 - 1), 0)
                 for f in ('fz', 'fm', 'fn', 'fv', 'fe', 'fc0', 'flm', 'fvl', 'sata', 'cpc'):
@@ -371,7 +386,7 @@ def run(tier, seed):
     ck.funcs.update(['Processor::Run / Interpreter::Run (idle fast-forward, latch sampling, fetch, dispatch, interrupt block, CoreTiming::Tick)', 'CoreTiming::Tick / Skip (real std::vector of callbacks, virtual calls)',
                      'Timer::Tick/Skip/GetMaxSkip/Restart/UpdateMMIO', 'Btdmp::Tick/Skip/GetMaxSkip', 'ICU::TriggerSingle/Trigger', 'Processor::SignalInterrupt', 'brr', 'moda4 (inc)', 'reti', 'PushPC/PopPC',
                      'MemoryInterface::ProgramRead/DataRead/DataWrite, SharedMemory'])
-    ck.assumptions += ['program: idle self-branch (brr -1) at 0x100, line-0 handler at 0x0006 = inc a0 ; reti; timer 0 -> IRQ 0xA routed to core line 0 and unmasked; timer 1 paused - or, in 16 extra cases, auto-restarting with period 1..3 and not routed, so that a second component caps the skip horizon - and audio ports disabled (their skip lemmas are C15/C16, composed by CoreTiming.Skip)',
+    ck.assumptions += ['program: idle self-branch (brr -1) at 0x100, line-0 handler at 0x0006 = inc a0 ; reti; timer 0 -> IRQ 0xA routed to core line 0 and unmasked (7 extra cases: delivered as a vectored interrupt to a handler at 0x0200 instead); timer 1 paused - or, in 16 extra cases, auto-restarting with period 1..3 and not routed, so that a second component caps the skip horizon - and audio ports disabled (their skip lemmas are C15/C16, composed by CoreTiming.Skip)',
                        'timer counter and start value: partitioned into {0},...,{n+1},{> n+1} - every 32-bit value lies in exactly one cell, the last cell is a symbolic remainder; count modes single / auto-restart / free-running enumerated; global interrupt enable 0/1; accumulator and flags symbolic',
                        'excluded as the property says: a self-branch that is the last instruction of an active block repeat or the target of rep',
                        'unbounded idle skips: by the skip lemmas of C15/C16 plus CoreTiming.Skip (paper induction)']
@@ -383,6 +398,11 @@ def run(tier, seed):
             for s_ in starts:
                 for ie in ((1, 0) if (mode in (1, 2) and c <= 3 and s_ in (1, 2, nmax + 1)) else (1,)):
                     cases.append({'n': n, 'nmax': nmax, 'mode': mode, 'counter': c, 'start': s_, 'ie': ie})
+    # vectored delivery: the second interrupt-entry branch of Interpreter::Run (it must leave the idle state as well)
+    # (6 cycles even in the quick tier: the handler has to run inside the Run call that entered it)
+    nv = max(n, 6)
+    for mode, c, s_ in ((0, 1, nv + 2), (0, 2, nv + 2), (0, 3, nv + 2), (0, nv + 2, nv + 2), (1, 1, 2), (1, 2, 1), (1, 3, 3)):
+        cases.append({'n': nv, 'nmax': nv + 1, 'mode': mode, 'counter': c, 'start': s_, 'ie': 1, 'vectored': True})
     # two active timing components: timer 1 auto-restarting (unrouted) under a few of the timer-0 cases
     for mode, c, s_ in ((0, nmax + 1, nmax + 1), (0, 3, nmax + 1), (1, 2, 3), (2, 0, nmax + 1)):
         for t1 in ((1, 2), (2, 1), (3, 3), (0, 2)):
